@@ -801,18 +801,18 @@ func checkLPP(c *facet.Ctx, in NumCase) *facet.Failure {
 func init() {
 	facet.Register(facet.F[NumCase]{
 		Prop: "C14", Name: "ref/arith", Rule: numRule + "; reference = exact big.Rat arithmetic with the tolerance rule of DESIGN 2.4 (exact when representable at the operands' precision, else relative error <= 2^-(p-1)); modulo: exact truncated-division remainder for whole operands, congruence + magnitude bound otherwise",
-		Quick: 40000, Thorough: 400000, Gen: genArith, Check: wrap(checkArith),
+		Quick: 100000, Thorough: 400000, Gen: genArith, Check: wrap(checkArith),
 	})
 	facet.Register(facet.F[NumCase]{
 		Prop: "C14", Name: "ref/compare", Rule: numRule + "; reference = exact comparison of the rationals (equal/notequal/<=/>= abstain where only cty's text-based equality makes the operands equal)",
-		Quick: 40000, Thorough: 400000, Gen: genCompare, Check: wrap(checkCompare),
+		Quick: 80000, Thorough: 400000, Gen: genCompare, Check: wrap(checkCompare),
 	})
 	facet.Register(facet.F[NumCase]{
 		Prop: "C14", Name: "ref/rounding", Rule: numRule + "; reference = exact integer rounding of the rational (ceil, floor, trunc), |x|, sign",
-		Quick: 40000, Thorough: 400000, Gen: genRounding, Check: wrap(checkRounding),
+		Quick: 100000, Thorough: 400000, Gen: genRounding, Check: wrap(checkRounding),
 	})
 	facet.Register(facet.F[NumCase]{
 		Prop: "C14", Name: "ref/log-pow-parseint", Rule: "log/pow: operands from float-ish pools, small ints, random floats and the class table, reference float64 math.Log/math.Pow on the nearest float64 of each operand, relative tolerance 1e-11; parseint: bases 2..62 (+ invalid bases), 1..40 digits of the base with edge digits, optional sign, 1/4 corrupted by one invalid character, reference = own Horner parser over big.Int; non-trivial = (log/pow) as for numbers, (parseint) more than 20 characters, an invalid character or an invalid base",
-		Quick: 40000, Thorough: 400000, Gen: genLPP, Check: wrap(checkLPP),
+		Quick: 100000, Thorough: 400000, Gen: genLPP, Check: wrap(checkLPP),
 	})
 }
